@@ -52,6 +52,7 @@ type Fact struct {
 	vars  []types.Object
 	key   string
 	Inherited bool // holds at the creation point of an enclosing literal
+	Sem       bool // semantic copy (keyed by callee and argument text, not by site)
 }
 
 func (f *Fact) String() string {
@@ -130,6 +131,7 @@ type factAnalysis struct {
 	in      map[*cfg.Block]*fstate
 	noBind  map[*types.Var]bool // vars assigned in literals or address-taken: never bound
 	rangeKV map[*cfg.Block][]*types.Var
+	rangeIdents map[*ast.Ident]bool
 }
 
 func (f *Fn) facts() *factAnalysis {
@@ -137,7 +139,7 @@ func (f *Fn) facts() *factAnalysis {
 		return f.fa
 	}
 	g := f.CFG()
-	a := &factAnalysis{f: f, in: map[*cfg.Block]*fstate{}, noBind: map[*types.Var]bool{}, rangeKV: map[*cfg.Block][]*types.Var{}}
+	a := &factAnalysis{f: f, in: map[*cfg.Block]*fstate{}, noBind: map[*types.Var]bool{}, rangeKV: map[*cfg.Block][]*types.Var{}, rangeIdents: map[*ast.Ident]bool{}}
 	f.fa = a
 	// variables that may change behind the analysis' back
 	ast.Inspect(f.Body, func(n ast.Node) bool {
@@ -175,6 +177,9 @@ func (f *Fn) facts() *factAnalysis {
 			if rs, ok := b.Stmt.(*ast.RangeStmt); ok {
 				for _, e := range []ast.Expr{rs.Key, rs.Value} {
 					if e != nil {
+						if id, ok := e.(*ast.Ident); ok {
+							a.rangeIdents[id] = true
+						}
 						if v := f.varOf(e); v != nil {
 							a.rangeKV[b] = append(a.rangeKV[b], v)
 						}
@@ -370,9 +375,22 @@ func (f *Fn) keyedLockCall(call *ast.CallExpr) (lock string, mode byte) {
 func (a *factAnalysis) transfer(st *fstate, n ast.Node) {
 	f := a.f
 	for _, c := range shallowCalls(n) {
+		sk := ""
 		for k, fa := range st.facts {
-			if fa.Call == c && fa.Kind != FHeld {
+			if fa.Kind == FHeld || fa.Call == nil {
+				continue
+			}
+			if fa.Call == c {
 				delete(st.facts, k)
+				continue
+			}
+			if fa.Sem {
+				if sk == "" {
+					sk = semKey(f, c)
+				}
+				if strings.HasPrefix(k, "sem:") && strings.Contains(k, ":"+sk+"#") {
+					delete(st.facts, k)
+				}
 			}
 		}
 	}
@@ -432,9 +450,11 @@ func (a *factAnalysis) transfer(st *fstate, n ast.Node) {
 	case *ast.IncDecStmt:
 		a.assign(st, x.X, nil, 0, nil)
 	case *ast.Ident:
-		// range key/value placeholder
-		if v := f.varOf(x); v != nil {
-			a.unbind(st, v)
+		// range key/value placeholder (a bare identifier can also be a branch condition)
+		if a.rangeIdents[x] {
+			if v := f.varOf(x); v != nil {
+				a.unbind(st, v)
+			}
 		}
 	case *ast.ExprStmt:
 		call, ok := x.X.(*ast.CallExpr)
@@ -531,6 +551,21 @@ func (a *factAnalysis) addAtomFacts(st *fstate, at atom, cond ast.Expr) {
 		}
 		// a fact and its opposite cannot both hold; a later test overrides
 		st.facts[fa.key] = fa
+		if fa.Call != nil && fa.Kind != FHeld && fa.Kind != FCmp {
+			// the same check written at several sites (both arms of an if) must survive the
+			// join: a second, "semantic" copy keyed by callee + receiver/argument text
+			c := *fa
+			c.key = "sem:" + kindNames[fa.Kind] + ":" + semKey(f, fa.Call) + fmt.Sprintf("#%d", fa.Idx)
+			c.Sem = true
+			st.facts[c.key] = &c
+			for _, opp := range [][2]FactKind{{FCallOK, FCallFail}, {FTrue, FFalse}, {FNonNil, FNil}} {
+				for i := 0; i < 2; i++ {
+					if fa.Kind == opp[i] {
+						delete(st.facts, "sem:"+kindNames[opp[1-i]]+":"+semKey(f, fa.Call)+fmt.Sprintf("#%d", fa.Idx))
+					}
+				}
+			}
+		}
 	}
 	nilTest := func(x ast.Expr, isNil bool) bool {
 		v := f.varOf(x)
@@ -709,8 +744,65 @@ func (f *Fn) FactsAt(n ast.Node) *FactSet {
 	return fs
 }
 
+// factsAfterCond returns the facts holding on the given outcome of a condition node.
+func (f *Fn) factsAfterCond(cond ast.Expr, truth bool) *FactSet {
+	a := f.facts()
+	b, idx := f.locate(cond)
+	if b == nil || idx != len(b.Nodes)-1 || len(b.Succs) != 2 {
+		f.C.Failf("pathfacts: %s is not a branch condition in %s", f.C.pos(cond.Pos()), f.Name)
+	}
+	in := a.in[b]
+	if in == nil || !b.Live {
+		return &FactSet{Unreachable: true, f: f}
+	}
+	st := in.clone()
+	for _, v := range a.rangeKV[b] {
+		a.unbind(st, v)
+	}
+	for _, n := range b.Nodes {
+		a.transfer(st, n)
+	}
+	outs := a.edgeStates(b, st)
+	o := outs[1]
+	if truth {
+		o = outs[0]
+	}
+	fs := &FactSet{f: f, bind: o.bind}
+	for _, fa := range o.facts {
+		fs.Facts = append(fs.Facts, fa)
+	}
+	sort.Slice(fs.Facts, func(i, j int) bool { return fs.Facts[i].key < fs.Facts[j].key })
+	return fs
+}
+
+// branchFacts handles break/continue/goto statements, which are edges (not nodes) in
+// go/cfg: supported when the statement opens the body of an if/else.
+func (f *Fn) branchFacts(br *ast.BranchStmt) *FactSet {
+	var res *FactSet
+	ast.Inspect(f.Body, func(n ast.Node) bool {
+		ifs, ok := n.(*ast.IfStmt)
+		if !ok || res != nil {
+			return res == nil
+		}
+		if len(ifs.Body.List) > 0 && ifs.Body.List[0] == ast.Stmt(br) {
+			res = f.factsAfterCond(ifs.Cond, true)
+		}
+		if eb, ok := ifs.Else.(*ast.BlockStmt); ok && len(eb.List) > 0 && eb.List[0] == ast.Stmt(br) {
+			res = f.factsAfterCond(ifs.Cond, false)
+		}
+		return true
+	})
+	if res == nil {
+		f.C.Failf("pathfacts: branch statement at %s is not the first statement of an if/else body (undecided)", f.C.pos(br.Pos()))
+	}
+	return res
+}
+
 func (f *Fn) localFactsAt(n ast.Node) *FactSet {
 	a := f.facts()
+	if br, ok := n.(*ast.BranchStmt); ok {
+		return f.branchFacts(br)
+	}
 	b, idx := f.locate(n)
 	if b == nil {
 		f.C.Failf("pathfacts: cannot locate %s in CFG of %s", f.C.pos(n.Pos()), f.Name)
@@ -1024,3 +1116,9 @@ func (f *Fn) CutFromDefs(use ast.Node, v *types.Var, isBad func(prov string) boo
 	}
 	return nil, true
 }
+
+func semKey(f *Fn, call *ast.CallExpr) string {
+	return f.CallKey(call) + "|" + types.ExprString(call)
+}
+
+type cfgBlock = cfg.Block
